@@ -10,6 +10,9 @@ ASSUME = [
     "window protocol: specs/StreamDecoder.tla model-checked by TLC (conservation, sentinel, bounds, growth, refinement to the "
     "index arithmetic of StreamIdx.tla); recorded hook traces of real runs are validated by TLC against StreamTrace.tla",
     "a divergence that a multi-cut schedule shares with one of its single cuts is attributed to the single cut",
+    "specs/TokenStream.tla labels every transition of the JsonText automaton with the token it emits (delimiters, scalar kinds; TLC checks "
+    "well-matchedness and that the open delimiters are the automaton's stack on every string up to length 6); the labels travel with the "
+    "exported table and the harness checks encoding/json's token kinds against them for every document (a disagreement is exit 2)",
 ]
 
 
@@ -77,7 +80,7 @@ def validate_traces(scratch, tdir, out):
 def run(tier, scratch, record=False):
     t0 = time.time()
     suf = "_quick" if tier == "quick" else ""
-    tl = vlib.tlc_parallel(scratch, [("StreamDecoder", "StreamDecoder_mc%s.cfg" % suf, 8)], timeout=1200)
+    tl = vlib.tlc_parallel(scratch, [("StreamDecoder", "StreamDecoder_mc%s.cfg" % suf, 8), ("TokenStream", "TokenStream_mc.cfg", 4)], timeout=1200)
     table, exp = vlib.export_jsontext(scratch)
     binary = vlib.build_harness(scratch)
     tdir = scratch.sub("traces")
